@@ -1,5 +1,6 @@
 /-
-C20 — property theorems: the encoder is safe for every text; the decoder inverts it (K4 hypothesis).
+C20 — property theorems, all clauses for every text: safety of the encoder and of the three field
+classes, inverse (K4 hypothesis), fixpoint (K5 hypothesis), first line; `sound_partial` combines them.
 -/
 import DebInspector.Props.C20
 import DebInspector.Proofs.Splitlines
@@ -229,5 +230,881 @@ example : asFormattedText "a\n\n \t \nb\x0cc".toList = "a\n .\n .\n b\n c".toLis
 example : (model "\nx".toList).decEnc = ".\nx".toList := by decide +kernel        -- K4
 example : (model "x\n .\n .".toList).e1 = "x\n .".toList ∧ (model "x\n .\n .".toList).e2 = "x".toList := by
   decide +kernel                                                                   -- K5
+
+
+/-! ## fixpoint, first-line clause, safety of the field classes, and the whole property -/
+
+/-- scanning a boundary-free prefix (possibly empty) that is followed by `\n`, from a fresh line -/
+theorem splitlinesAux_line (l rest : Str) (h : NoB l) :
+    splitlinesAux (l ++ '\n' :: rest) [] false = l :: splitlinesAux rest [] false := by
+  have hnl : ('\n' : Char) ≠ '\r' := by decide
+  cases l with
+  | nil => simp [splitlinesAux, nl_boundary, hnl]
+  | cons c cs =>
+    rw [splitlinesAux_prefix (c :: cs) _ [] false h (by simp)]
+    simp [splitlinesAux, nl_boundary, hnl]
+
+theorem splitlinesAux_last (l : Str) (h : NoB l) :
+    splitlinesAux l [] false = if l.isEmpty then [] else [l] := by
+  cases l with
+  | nil => simp [splitlinesAux]
+  | cons c cs => simpa using splitlinesAux_single (c :: cs) h (by simp)
+
+/-- drop one trailing empty line -/
+def dropLastEmpty : List Str → List Str
+  | [] => []
+  | [l] => if l.isEmpty then [] else [l]
+  | l :: m :: ms => l :: dropLastEmpty (m :: ms)
+
+/-- **inversion of the `"\n"` join** for boundary-free pieces, some of which may be empty:
+`splitlines` gives the pieces back except that one trailing empty piece is dropped. -/
+theorem splitlines_joinNl (ls : List Str) (h : ∀ l ∈ ls, NoB l) :
+    splitlines (joinNl ls) = dropLastEmpty ls := by
+  unfold splitlines
+  induction ls with
+  | nil => simp [joinNl, splitlinesAux, dropLastEmpty]
+  | cons l ls ih =>
+    cases ls with
+    | nil => simpa [joinNl, dropLastEmpty] using splitlinesAux_last l (h l (by simp))
+    | cons m ms =>
+      have e : joinNl (l :: m :: ms) = l ++ '\n' :: joinNl (m :: ms) := by simp [joinNl]
+      rw [e, splitlinesAux_line l _ (h l (by simp)), ih (fun x hx => h x (by simp [hx]))]
+      simp [dropLastEmpty]
+
+/-! ### trailing empty pieces -/
+
+def trailingEmpty : List Str → Nat
+  | [] => 0
+  | l :: ls =>
+    let n := trailingEmpty ls
+    if n == ls.length then (if l.isEmpty then n + 1 else n) else n
+
+theorem trailingEmpty_ge_tail (l : Str) (ls : List Str) : trailingEmpty ls ≤ trailingEmpty (l :: ls) := by
+  simp only [trailingEmpty]
+  split <;> try split
+  all_goals omega
+
+theorem dropLastEmpty_eq_nil {m : Str} {ms : List Str} (h : dropLastEmpty (m :: ms) = []) : m = [] ∧ ms = [] := by
+  cases ms with
+  | nil =>
+    simp only [dropLastEmpty] at h
+    split at h
+    · rename_i he; exact ⟨by simpa using he, rfl⟩
+    · cases h
+  | cons a as => simp [dropLastEmpty] at h
+
+theorem dropLastEmpty_of_zero (ds : List Str) (h : trailingEmpty ds = 0) : dropLastEmpty ds = ds := by
+  induction ds with
+  | nil => rfl
+  | cons l ls ih =>
+    cases ls with
+    | nil =>
+      simp only [trailingEmpty, List.length_nil, beq_self_eq_true, if_true] at h
+      by_cases hl : l.isEmpty = true
+      · simp [hl] at h
+      · simp [dropLastEmpty, hl]
+    | cons m ms =>
+      have hge := trailingEmpty_ge_tail l (m :: ms)
+      have h0 : trailingEmpty (m :: ms) = 0 := by omega
+      simp [dropLastEmpty, ih h0]
+
+theorem trailingEmpty_dropLast (ds : List Str) (h : trailingEmpty ds ≤ 1) : trailingEmpty (dropLastEmpty ds) = 0 := by
+  induction ds with
+  | nil => rfl
+  | cons l ls ih =>
+    cases ls with
+    | nil =>
+      by_cases hl : l.isEmpty = true
+      · simp [dropLastEmpty, hl, trailingEmpty]
+      · simp [dropLastEmpty, hl, trailingEmpty]
+    | cons m ms =>
+      have hge := trailingEmpty_ge_tail l (m :: ms)
+      have hk := ih (by omega)
+      show trailingEmpty (l :: dropLastEmpty (m :: ms)) = 0
+      simp only [trailingEmpty, hk]
+      by_cases hx : (0 == (dropLastEmpty (m :: ms)).length) = true
+      · have hnil : dropLastEmpty (m :: ms) = [] := by
+          have : (dropLastEmpty (m :: ms)).length = 0 := by
+            have h2 := hx; simp only [beq_iff_eq] at h2; omega
+          exact List.length_eq_zero_iff.mp this
+        obtain ⟨hm, hms⟩ := dropLastEmpty_eq_nil hnil
+        subst hm; subst hms
+        by_cases hl : l.isEmpty = true
+        · have hl' : l = [] := by simpa using hl
+          subst hl'
+          simp [trailingEmpty] at h
+        · simp [hx, hl]
+      · simp [hx]
+
+theorem dropLastEmpty_idem (ds : List Str) (h : trailingEmpty ds ≤ 1) :
+    dropLastEmpty (dropLastEmpty ds) = dropLastEmpty ds :=
+  dropLastEmpty_of_zero _ (trailingEmpty_dropLast ds h)
+
+theorem dropLastEmpty_subset (ds : List Str) : ∀ d ∈ dropLastEmpty ds, d ∈ ds := by
+  induction ds with
+  | nil => intro d hd; cases hd
+  | cons l ls ih =>
+    cases ls with
+    | nil =>
+      intro d hd
+      simp only [dropLastEmpty] at hd
+      split at hd
+      · cases hd
+      · exact hd
+    | cons m ms =>
+      intro d hd
+      simp only [dropLastEmpty, List.mem_cons] at hd
+      rcases hd with rfl | hd
+      · simp
+      · have := ih d (by simpa using hd)
+        simp only [List.mem_cons] at this ⊢
+        exact Or.inr this
+
+
+/-! ### canonical decoded lines -/
+
+theorem rstrip_subset (l : Str) : ∀ c ∈ rstrip l, c ∈ l := by
+  induction l with
+  | nil => intro c hc; simp [rstrip] at hc
+  | cons a as ih =>
+    intro c hc
+    simp only [rstrip] at hc
+    cases hr : rstrip as with
+    | nil =>
+      rw [hr] at hc
+      by_cases ha : isSpace a = true
+      · simp [ha] at hc
+      · simp [ha] at hc; simp [hc]
+    | cons d ds =>
+      rw [hr] at hc
+      simp only [List.mem_cons] at hc ⊢
+      rcases hc with rfl | hc
+      · exact Or.inl rfl
+      · exact Or.inr (ih c (by rw [hr]; simpa using hc))
+
+theorem lstrip_subset (l : Str) : ∀ c ∈ lstrip l, c ∈ l := by
+  induction l with
+  | nil => intro c hc; simp [lstrip] at hc
+  | cons a as ih =>
+    intro c hc
+    simp only [lstrip] at hc
+    split at hc
+    · exact List.mem_cons_of_mem _ (ih c hc)
+    · exact hc
+
+theorem NoB_rstrip {l : Str} (h : NoB l) : NoB (rstrip l) := fun c hc => h c (rstrip_subset l c hc)
+theorem NoB_lstrip {l : Str} (h : NoB l) : NoB (lstrip l) := fun c hc => h c (lstrip_subset l c hc)
+theorem NoB_strip {l : Str} (h : NoB l) : NoB (strip l) := NoB_rstrip (NoB_lstrip h)
+theorem NoB_tail {l : Str} (h : NoB l) : NoB l.tail := fun c hc => h c (List.mem_of_mem_tail hc)
+
+theorem lstrip_head (l : Str) : headP isSpace (lstrip l) = false := by
+  induction l with
+  | nil => rfl
+  | cons a as ih =>
+    simp only [lstrip]
+    split
+    · exact ih
+    · rename_i h; simpa [headP] using h
+
+theorem rstrip_head {l : Str} (h : headP isSpace l = false) : headP isSpace (rstrip l) = false := by
+  cases l with
+  | nil => rfl
+  | cons a as =>
+    simp only [rstrip]
+    cases rstrip as with
+    | nil => simp only [headP] at h; simp [h, headP]
+    | cons d ds => simpa [headP] using h
+
+theorem strip_head (l : Str) : headP isSpace (strip l) = false := rstrip_head (lstrip_head l)
+
+theorem lstrip_of_head {l : Str} (h : headP isSpace l = false) : lstrip l = l := by
+  cases l with
+  | nil => rfl
+  | cons a as => simp only [headP] at h; simp [lstrip, h]
+
+theorem isBlank_of_head {l : Str} (h : headP isSpace l = false) (hne : l ≠ []) : isBlank l = false := by
+  cases l with
+  | nil => exact absurd rfl hne
+  | cons a as => simp only [headP] at h; simp [isBlank, h]
+
+theorem lstrip_rstrip_comm (l : Str) : lstrip (rstrip l) = rstrip (lstrip l) := by
+  induction l with
+  | nil => rfl
+  | cons a as ih =>
+    by_cases ha : isSpace a = true
+    · simp only [lstrip, ha, if_true, rstrip]
+      cases hr : rstrip as with
+      | nil => rw [hr] at ih; simp [lstrip, ← ih]
+      | cons d ds =>
+        rw [hr] at ih
+        show lstrip (a :: d :: ds) = _
+        rw [lstrip, if_pos ha, ih]
+    · have ha' : isSpace a = false := by simpa using ha
+      simp only [lstrip, ha', Bool.false_eq_true, if_false]
+      exact lstrip_of_head (rstrip_head (by simp [headP, ha']))
+
+theorem strip_rstrip (l : Str) : strip (rstrip l) = strip l := by
+  unfold strip; rw [lstrip_rstrip_comm, rstrip_idem]
+
+theorem isBlank_lstrip (l : Str) : isBlank (lstrip l) = isBlank l := by
+  induction l with
+  | nil => rfl
+  | cons a as ih =>
+    by_cases ha : isSpace a = true
+    · simp [lstrip, ha, isBlank_cons, ih]
+    · simp [lstrip, ha]
+
+theorem strip_ne_nil {l : Str} (h : isBlank l = false) : strip l ≠ [] := by
+  unfold strip
+  intro e
+  have := (rstrip_eq_nil_iff _).mp e
+  rw [isBlank_lstrip, h] at this
+  cases this
+
+/-- a decoded line: boundary-free, without trailing blanks, and reproduced by decode∘encode -/
+def Canon (d : Str) : Prop := NoB d ∧ rstrip d = d ∧ decLine (' ' :: encLine d) = d
+
+theorem canon_nil : Canon [] := ⟨(fun _ h => by cases h), rfl, (by decide)⟩
+
+/-- a trimmed non-empty piece other than a lone full stop -/
+theorem canon_stripped (d : Str) (hB : NoB d) (h1 : d ≠ []) (h2 : headP isSpace d = false) (h3 : rstrip d = d)
+    (h4 : d ≠ ['.']) : Canon d := by
+  refine ⟨hB, h3, ?_⟩
+  have hb : isBlank d = false := isBlank_of_head h2 h1
+  cases d with
+  | nil => exact absurd rfl h1
+  | cons c cs =>
+    have hc : isSpace c = false := by simpa [headP] using h2
+    have hsp : isBlank (' ' :: c :: cs) = false := by rw [isBlank_cons, hb]; simp
+    have e1 : rstrip (' ' :: c :: cs) = ' ' :: c :: cs := by rw [rstrip_cons_of_nonblank _ _ hsp, h3]
+    have hcsp : c ≠ ' ' := by intro e; subst e; rw [sp_space] at hc; cases hc
+    unfold decLine encLine
+    simp only [hb, Bool.false_eq_true, if_false, e1]
+    by_cases hd : c = '.'
+    · subst hd
+      have : cs ≠ [] := by intro e; subst e; exact h4 rfl
+      simp [startsWith, this]
+    · simp [startsWith, hcsp, hd, strip, lstrip, sp_space, hc, h3]
+
+/-- a verbatim piece: starts with a space, not blank, no trailing blanks -/
+theorem canon_verbatim (d : Str) (hB : NoB d) (h1 : startsWith d [' '] = true) (h3 : rstrip d = d) : Canon d := by
+  refine ⟨hB, h3, ?_⟩
+  have : okLine d = true := by
+    cases d with
+    | nil => simp [startsWith] at h1
+    | cons c cs =>
+      have : c = ' ' := by simpa [startsWith] using h1
+      subst this
+      simp [okLine, startsWith, headP]
+  rw [decLine_enc d this, h3]
+
+def confLine (l : Str) : Bool :=
+  startsWith l [' '] && !isBlank l && (isMarker l || (!startsWith l [' ', '.'] && strip l != ['.']))
+
+/-- decoding a conformant continuation line gives a canonical piece, empty exactly for a marker -/
+theorem decLine_canon (l : Str) (hB : NoB l) (h : confLine l = true) :
+    Canon (decLine l) ∧ ((decLine l).isEmpty = isMarker l) := by
+  simp only [confLine, Bool.and_eq_true, Bool.not_eq_true', Bool.or_eq_true, bne_iff_ne, ne_eq] at h
+  obtain ⟨⟨hsp, hnb⟩, hm⟩ := h
+  by_cases hmk : isMarker l = true
+  · have : rstrip l = [' ', '.'] := by simpa [isMarker] using hmk
+    have hd : decLine l = [] := by unfold decLine; simp only [this]; decide
+    rw [hd, hmk]; exact ⟨canon_nil, rfl⟩
+  · have hmk' : isMarker l = false := by simpa using hmk
+    have hnm : rstrip l ≠ [' ', '.'] := by simpa [isMarker] using hmk'
+    rcases hm with hm | hm
+    · exact absurd hm hmk
+    · obtain ⟨hnd, hns⟩ := hm
+      cases l with
+      | nil => simp [startsWith] at hsp
+      | cons a as =>
+        have ha : a = ' ' := by simpa [startsWith] using hsp
+        subst ha
+        have hasb : isBlank as = false := by
+          rw [isBlank_cons, sp_space] at hnb; simpa using hnb
+        cases as with
+        | nil => simp [isBlank] at hasb
+        | cons c cs =>
+          have e1 : rstrip (' ' :: c :: cs) = ' ' :: c :: rstrip cs := by
+            rw [rstrip_cons_of_nonblank _ _ hnb, rstrip_cons_of_nonblank _ _ hasb]
+          have e2 : rstrip (c :: cs) = c :: rstrip cs := rstrip_cons_of_nonblank _ _ hasb
+          have hBt : NoB (c :: cs) := NoB_tail hB
+          by_cases hc : c = ' '
+          · subst hc
+            have hd : decLine (' ' :: ' ' :: cs) = ' ' :: rstrip cs := by
+              unfold decLine; simp [e1, startsWith]
+            rw [hd, hmk']
+            refine ⟨canon_verbatim _ ?_ (by simp [startsWith]) ?_, by simp⟩
+            · rw [← e2]; exact NoB_rstrip hBt
+            · rw [← e2, rstrip_idem]
+          · have hcd : c ≠ '.' := by
+              intro e; subst e; simp [startsWith] at hnd
+            have hd : decLine (' ' :: c :: cs) = strip (' ' :: c :: cs) := by
+              unfold decLine
+              simp only [e1]
+              have hne : ¬ (' ' :: c :: rstrip cs = [' ', '.']) := by
+                intro e; rw [← e1] at e; exact hnm e
+              have hst : strip (' ' :: c :: rstrip cs) = strip (' ' :: c :: cs) := by
+                rw [← e1, strip_rstrip]
+              simp [startsWith, hc, hcd, hne, hst]
+            rw [hd, hmk']
+            have hne : strip (' ' :: c :: cs) ≠ [] := strip_ne_nil hnb
+            refine ⟨canon_stripped _ (NoB_strip hB) hne (strip_head _) ?_ hns, by simpa using hne⟩
+            unfold strip; rw [rstrip_idem]
+
+
+theorem trailing_eq (ls : List Str) (h : ∀ l ∈ ls, (decLine l).isEmpty = isMarker l) :
+    trailingEmpty (ls.map decLine) = trailingMarkers ls := by
+  induction ls with
+  | nil => rfl
+  | cons l ls ih =>
+    have := ih (fun x hx => h x (by simp [hx]))
+    simp only [List.map_cons, trailingEmpty, trailingMarkers, this, List.length_map, h l (by simp)]
+
+theorem joinNl_isEmpty (f : Str) (ds : List Str) (hf : f ≠ []) : (joinNl (f :: ds)).isEmpty = false := by
+  cases f with
+  | nil => exact absurd rfl hf
+  | cons a as => cases ds <;> simp [joinNl]
+
+theorem dropLastEmpty_cons (f : Str) (ds : List Str) (hf : f ≠ []) :
+    dropLastEmpty (f :: ds) = f :: dropLastEmpty ds := by
+  cases ds with
+  | nil => simp [dropLastEmpty, hf]
+  | cons d ds => simp [dropLastEmpty]
+
+/-- encoding the `"\n"`-join of boundary-free pieces: one trailing empty piece is lost -/
+theorem enc_joinNl (f : Str) (ds : List Str) (hf : f ≠ []) (hB : ∀ l ∈ f :: ds, NoB l) :
+    asFormattedText (joinNl (f :: ds)) = asFormattedLines (f :: dropLastEmpty ds) := by
+  unfold asFormattedText
+  rw [joinNl_isEmpty f ds hf]
+  simp only [Bool.false_eq_true, if_false]
+  rw [splitlines_joinNl _ hB, dropLastEmpty_cons f ds hf]
+
+/-- decoding the encoding of canonical pieces gives their `"\n"`-join -/
+theorem dec_enc_canon (f : Str) (ds : List Str) (hfB : NoB f) (hfne : f ≠ []) (hfh : headP isSpace f = false)
+    (hfr : rstrip f = f) (hds : ∀ d ∈ ds, Canon d) :
+    fromFormattedText (asFormattedLines (f :: ds)) = joinNl (f :: ds) := by
+  have hfb : isBlank f = false := isBlank_of_head hfh hfne
+  have he0 : encLine f = f := by simp [encLine, hfb]
+  have hps : ∀ q ∈ ds.map encLine, NoB q ∧ q ≠ [] := by
+    intro q hq
+    simp only [List.mem_map] at hq
+    obtain ⟨x, hx, rfl⟩ := hq
+    have := encLine_props x (hds x hx).1
+    exact ⟨this.1, this.2.1⟩
+  have hsplit := splitlines_joinNlSp f (ds.map encLine) hfB hfne hps
+  have hne2 : (joinNlSp (f :: ds.map encLine)).isEmpty = false := by
+    cases f with
+    | nil => exact absurd rfl hfne
+    | cons a as => cases ds <;> simp [joinNlSp]
+  have hstrip : strip f = f := by unfold strip; rw [lstrip_of_head hfh, hfr]
+  unfold asFormattedLines
+  rw [List.map_cons, he0]
+  simp only [fromFormattedText, hne2, Bool.false_eq_true, if_false, lineSeparated, hsplit, fromFormattedLines, hstrip]
+  congr 2
+  rw [List.map_map, List.map_map]
+  conv => rhs; rw [← List.map_id ds]
+  apply List.map_congr_left
+  intro d hd
+  exact (hds d hd).2.2
+
+/-- **C20 fixpoint (K5 hypothesis)** — for every policy-conformant field value ending in at most one
+blank-line marker, `enc(dec(enc(dec v))) = enc(dec v)`. -/
+theorem fixpoint_core (v : Str) (h : conformant v = true) (hk : atMostOneTrailingMarker v = true) :
+    asFormattedText (fromFormattedText (asFormattedText (fromFormattedText v))) =
+      asFormattedText (fromFormattedText v) := by
+  unfold conformant at h
+  unfold atMostOneTrailingMarker at hk
+  cases hs : splitlines v with
+  | nil => rw [hs] at h; cases h
+  | cons l0 ls =>
+    rw [hs] at h hk
+    simp only [Bool.and_eq_true, Bool.not_eq_true', List.all_eq_true, List.tail_cons] at h hk
+    obtain ⟨hb0, hls⟩ := h
+    have hne : v.isEmpty = false := by
+      cases v with
+      | nil => simp [splitlines, splitlinesAux] at hs
+      | cons _ _ => rfl
+    have hnoB : ∀ l ∈ l0 :: ls, NoB l := by
+      intro l hl; rw [← hs] at hl; exact splitlines_noB v l hl
+    have hconf : ∀ l ∈ ls, confLine l = true := by
+      intro l hl
+      have := hls l hl
+      simpa [confLine] using this
+    have hcan : ∀ l ∈ ls, Canon (decLine l) ∧ ((decLine l).isEmpty = isMarker l) :=
+      fun l hl => decLine_canon l (hnoB l (by simp [hl])) (hconf l hl)
+    -- the decoded pieces
+    have hfB : NoB (strip l0) := NoB_strip (hnoB l0 (by simp))
+    have hfne : strip l0 ≠ [] := strip_ne_nil hb0
+    have hfh : headP isSpace (strip l0) = false := strip_head l0
+    have hfr : rstrip (strip l0) = strip l0 := by unfold strip; rw [rstrip_idem]
+    have hdsC : ∀ d ∈ ls.map decLine, Canon d := by
+      intro d hd
+      simp only [List.mem_map] at hd
+      obtain ⟨x, hx, rfl⟩ := hd
+      exact (hcan x hx).1
+    have hdec : fromFormattedText v = joinNl (strip l0 :: ls.map decLine) := by
+      simp [fromFormattedText, hne, lineSeparated, hs, fromFormattedLines]
+    have hBall : ∀ l ∈ strip l0 :: ls.map decLine, NoB l := by
+      intro l hl
+      rcases List.mem_cons.mp hl with rfl | hl
+      · exact hfB
+      · exact (hdsC l hl).1
+    have hte : trailingEmpty (ls.map decLine) ≤ 1 := by
+      rw [trailing_eq ls (fun l hl => (hcan l hl).2)]; exact of_decide_eq_true hk
+    have hd1C : ∀ d ∈ dropLastEmpty (ls.map decLine), Canon d :=
+      fun d hd => hdsC d (dropLastEmpty_subset _ d hd)
+    have hBall1 : ∀ l ∈ strip l0 :: dropLastEmpty (ls.map decLine), NoB l := by
+      intro l hl
+      rcases List.mem_cons.mp hl with rfl | hl
+      · exact hfB
+      · exact (hd1C l hl).1
+    rw [hdec, enc_joinNl _ _ hfne hBall, dec_enc_canon _ _ hfB hfne hfh hfr hd1C,
+      enc_joinNl _ _ hfne hBall1, dropLastEmpty_idem _ hte]
+
+theorem fixpoint_partial (v : Str) (h : conformant v = true) (hk : atMostOneTrailingMarker v = true) :
+    (model v).e2 = (model v).e1 := fixpoint_core v h hk
+
+/-- non-vacuity: a conformant value with markers, a verbatim line, a tab-indented line and one trailing marker -/
+example : conformant "a \n  x  \n .\n \tb.\n . ".toList = true ∧
+    atMostOneTrailingMarker "a \n  x  \n .\n \tb.\n . ".toList = true ∧
+    (model "a \n  x  \n .\n \tb.\n . ".toList).e1 = "a\n  x\n .\n b.".toList := by decide +kernel
+
+
+/-! ### the first-line clause -/
+
+theorem isBlank_append (a b : Str) : isBlank (a ++ b) = (isBlank a && isBlank b) := by
+  simp [isBlank, List.all_append]
+
+theorem rstrip_append_nonblank (a b : Str) (hb : isBlank b = false) : rstrip (a ++ b) = a ++ rstrip b := by
+  induction a with
+  | nil => rfl
+  | cons c cs ih =>
+    have : isBlank (c :: (cs ++ b)) = false := by rw [isBlank_cons, isBlank_append, hb]; simp
+    rw [List.cons_append, rstrip_cons_of_nonblank _ _ this, ih]; rfl
+
+theorem splitlinesAux_ne_nil (rest cur : Str) (cr : Bool) (h : cur ≠ []) : splitlinesAux rest cur cr ≠ [] := by
+  induction rest generalizing cur cr with
+  | nil => simp [splitlinesAux, h]
+  | cons c cs ih =>
+    rw [splitlinesAux]
+    split
+    · exact ih cur false h
+    · split
+      · simp
+      · split
+        · simp
+        · exact ih (c :: cur) false (by simp)
+
+theorem splitlines_ne_nil (t : Str) (h : t ≠ []) : splitlines t ≠ [] := by
+  cases t with
+  | nil => exact absurd rfl h
+  | cons c cs =>
+    unfold splitlines
+    rw [splitlinesAux]
+    split
+    · rename_i hc; exact absurd hc.2 (by simp)
+    · split
+      · simp
+      · split
+        · simp
+        · exact splitlinesAux_ne_nil cs [c] false (by simp)
+
+theorem firstLine_single (p : Str) (hB : NoB p) (hne : p ≠ []) : firstLine p = p := by
+  unfold firstLine splitlines; rw [splitlinesAux_single p hB hne]; rfl
+
+theorem firstLine_nl (p rest : Str) (hB : NoB p) : firstLine (p ++ '\n' :: rest) = p := by
+  unfold firstLine splitlines; rw [splitlinesAux_line p rest hB]; rfl
+
+theorem asFormattedText_nonblank (t : Str) (h : t ≠ []) : isBlank (asFormattedText t) = false := by
+  unfold asFormattedText
+  have : t.isEmpty = false := by cases t <;> simp_all
+  simp only [this, Bool.false_eq_true, if_false, asFormattedLines]
+  cases hs : splitlines t with
+  | nil => exact absurd hs (splitlines_ne_nil t h)
+  | cons l ls =>
+    have hp := encLine_props l (splitlines_noB t l (by rw [hs]; simp))
+    have e : ∃ r, joinNlSp ((l :: ls).map encLine) = encLine l ++ r := by
+      cases ls with
+      | nil => exact ⟨[], by simp [joinNlSp]⟩
+      | cons m ms => exact ⟨_, by simp only [List.map_cons, joinNlSp]; rfl⟩
+    obtain ⟨r, hr⟩ := e
+    rw [hr, isBlank_append, hp.2.2]; rfl
+
+/-- **C20 first-line clause** — when the first line of `v` is not blank, the rendering of the
+description field and of the license field built from `v` keep the trimmed first line (synopsis,
+short name) as their own first line. -/
+theorem first_line (v : Str) (h : firstNotBlank v = true) :
+    firstLine (descriptionRoundtrip v) = strip (firstLine v) ∧ firstLine (licenseRoundtrip v) = strip (firstLine v) := by
+  unfold firstNotBlank at h
+  cases hs : splitlines v with
+  | nil => rw [hs] at h; cases h
+  | cons l0 ls =>
+    rw [hs] at h
+    have hb0 : isBlank l0 = false := by simpa using h
+    have hne : v.isEmpty = false := by
+      cases v with
+      | nil => simp [splitlines, splitlinesAux] at hs
+      | cons _ _ => rfl
+    have hl0B : NoB l0 := splitlines_noB v l0 (by rw [hs]; simp)
+    have hfB : NoB (strip l0) := NoB_strip hl0B
+    have hfne : strip l0 ≠ [] := strip_ne_nil hb0
+    have hfh : headP isSpace (strip l0) = false := strip_head l0
+    have hss : strip (strip l0) = strip l0 := by
+      have := lstrip_of_head (strip_head l0)
+      show rstrip (lstrip (strip l0)) = strip l0
+      rw [this]; unfold strip; rw [rstrip_idem]
+    have hfl : firstLine v = l0 := by unfold firstLine; rw [hs]; rfl
+    have hdfv : descriptionFromValue v = (strip l0, if ls.isEmpty then none else some (fromFormattedLines ls)) := by
+      simp [descriptionFromValue, lineSeparated, hne, hs]
+    rw [hfl]
+    constructor
+    · unfold descriptionRoundtrip
+      rw [hdfv]
+      unfold descriptionDumps
+      simp only [hss]
+      split
+      · exact firstLine_single _ hfB hfne
+      · split
+        · exact firstLine_single _ hfB hfne
+        · exact firstLine_nl _ _ hfB
+    · unfold licenseRoundtrip licenseFromValue licenseDumps
+      rw [hdfv]
+      unfold descriptionDumps
+      simp only [hss]
+      have hstripf : strip (strip l0) = strip l0 := hss
+      split
+      · rw [hstripf]; exact firstLine_single _ hfB hfne
+      · rename_i text htext
+        split
+        · rw [hstripf]; exact firstLine_single _ hfB hfne
+        · rename_i hte
+          -- text is the left-stripped, non-empty license text
+          have htne : text ≠ [] := by intro e; subst e; simp at hte
+          have hth : headP isSpace text = false := by
+            cases hls : ls.isEmpty with
+            | true => simp [hls] at htext
+            | false =>
+              simp only [hls, Bool.false_eq_true, if_false, Option.map_some, Option.some.injEq] at htext
+              split at htext
+              · rename_i he; rw [← htext] at htne; simp_all
+              · rw [← htext]; exact lstrip_head _
+          have hnsw : startsWith text [' '] = false := by
+            cases text with
+            | nil => rfl
+            | cons c cs =>
+              have : isSpace c = false := by simpa [headP] using hth
+              have : c ≠ ' ' := by intro e; subst e; rw [sp_space] at this; cases this
+              simp [startsWith, this]
+          simp only [hnsw, Bool.false_eq_true, if_false]
+          have hEb : isBlank (' ' :: asFormattedText text) = false := by
+            rw [isBlank_cons, asFormattedText_nonblank text htne]; simp
+          have hRb : isBlank ('\n' :: ' ' :: asFormattedText text) = false := by
+            rw [isBlank_cons, hEb]; simp
+          have hW : strip (strip l0 ++ '\n' :: ' ' :: asFormattedText text) =
+              strip l0 ++ '\n' :: rstrip (' ' :: asFormattedText text) := by
+            unfold strip
+            have hh : headP isSpace (rstrip (lstrip l0) ++ '\n' :: ' ' :: asFormattedText text) = false := by
+              have := hfh; unfold strip at this
+              cases hr : rstrip (lstrip l0) with
+              | nil => exact absurd hr (by simpa [strip] using hfne)
+              | cons c cs => rw [hr] at this; simpa [headP] using this
+            rw [lstrip_of_head hh, rstrip_append_nonblank _ _ hRb, rstrip_cons_of_nonblank _ _ hRb]
+          rw [hW]
+          exact firstLine_nl _ _ hfB
+
+
+/-! ### safety of the description and license renderings -/
+
+theorem safe_joinNlSp (p : Str) (ps : List Str) (hp : NoB p) (hpne : p ≠ [])
+    (hps : ∀ q ∈ ps, NoB q ∧ q ≠ [] ∧ isBlank q = false) : safe (joinNlSp (p :: ps)) = true := by
+  unfold safe
+  rw [splitlines_joinNlSp p ps hp hpne (fun q hq => ⟨(hps q hq).1, (hps q hq).2.1⟩)]
+  simp only [List.tail_cons, List.all_eq_true, List.mem_map]
+  intro y hy
+  obtain ⟨x, hx, rfl⟩ := hy
+  simp [startsWith, isBlank_cons, (hps x hx).2.2]
+
+theorem safe_single (p : Str) (hp : NoB p) : safe p = true := by
+  unfold safe splitlines
+  rw [splitlinesAux_last p hp]
+  split <;> simp
+
+theorem isBlank_rstrip {l : Str} (h : isBlank l = false) : isBlank (rstrip l) = false := by
+  cases hb : isBlank (rstrip l) with
+  | false => rfl
+  | true =>
+    have h1 := (rstrip_eq_nil_iff (rstrip l)).mpr hb
+    rw [rstrip_idem] at h1
+    have := (rstrip_eq_nil_iff l).mp h1
+    rw [h] at this; cases this
+
+theorem joinNlSp_snoc (ps : List Str) (p q : Str) :
+    ∃ pre, joinNlSp (p :: (ps ++ [q])) = pre ++ q ∧ ∀ q', joinNlSp (p :: (ps ++ [q'])) = pre ++ q' := by
+  induction ps generalizing p with
+  | nil => exact ⟨p ++ ['\n', ' '], by simp [joinNlSp], by intro q'; simp [joinNlSp]⟩
+  | cons a as ih =>
+    obtain ⟨pre, h1, h2⟩ := ih a
+    refine ⟨p ++ '\n' :: ' ' :: pre, ?_, ?_⟩
+    · show p ++ '\n' :: ' ' :: joinNlSp (a :: (as ++ [q])) = _
+      rw [h1]; simp
+    · intro q'
+      show p ++ '\n' :: ' ' :: joinNlSp (a :: (as ++ [q'])) = _
+      rw [h2]; simp
+
+/-- right-stripping a `"\n "`-join whose last piece is not blank only strips the last piece -/
+theorem rstrip_joinNlSp (p : Str) (ps : List Str) (q : Str) (hq : isBlank q = false) :
+    rstrip (joinNlSp (p :: (ps ++ [q]))) = joinNlSp (p :: (ps ++ [rstrip q])) := by
+  obtain ⟨pre, h1, h2⟩ := joinNlSp_snoc ps p q
+  rw [h1, h2 (rstrip q), rstrip_append_nonblank _ _ hq]
+
+theorem encPieces (ls : List Str) (h : ∀ l ∈ ls, NoB l) :
+    ∀ q ∈ ls.map encLine, NoB q ∧ q ≠ [] ∧ isBlank q = false := by
+  intro q hq
+  simp only [List.mem_map] at hq
+  obtain ⟨x, hx, rfl⟩ := hq
+  exact encLine_props x (h x hx)
+
+theorem joinNl_not_sp (f : Str) (ds : List Str) (hf : headP isSpace f = false) :
+    startsWith (joinNl (f :: ds)) [' '] = false := by
+  cases f with
+  | nil => cases ds <;> simp [joinNl, startsWith]
+  | cons c cs =>
+    have hc : isSpace c = false := by simpa [headP] using hf
+    have : c ≠ ' ' := by intro e; subst e; rw [sp_space] at hc; cases hc
+    cases ds <;> simp [joinNl, startsWith, this]
+
+theorem fromFormattedLines_not_sp (ls : List Str) : startsWith (fromFormattedLines ls) [' '] = false := by
+  cases ls with
+  | nil => rfl
+  | cons l ls => exact joinNl_not_sp _ _ (strip_head l)
+
+theorem safe_desc (v : Str) : safe (descriptionRoundtrip v) = true := by
+  unfold descriptionRoundtrip descriptionFromValue
+  cases hl : lineSeparated v with
+  | nil => simp [descriptionDumps, strip, lstrip, rstrip, safe_nil]
+  | cons l0 ls =>
+    have hl0B : NoB l0 := by
+      unfold lineSeparated at hl
+      split at hl
+      · cases hl
+      · exact splitlines_noB v l0 (by rw [hl]; simp)
+    have hfB : NoB (strip (strip l0)) := NoB_strip (NoB_strip hl0B)
+    simp only
+    unfold descriptionDumps
+    simp only
+    split
+    · exact safe_single _ hfB
+    · rename_i text htext
+      split
+      · exact safe_single _ hfB
+      · rename_i hte
+        have htne : text ≠ [] := by intro e; subst e; simp at hte
+        have hnsw : startsWith text [' '] = false := by
+          cases hls : ls.isEmpty with
+          | true => simp [hls] at htext
+          | false =>
+            simp only [hls, Bool.false_eq_true, if_false, Option.some.injEq] at htext
+            rw [← htext]; exact fromFormattedLines_not_sp ls
+        simp only [hnsw, Bool.false_eq_true, if_false]
+        have htie : text.isEmpty = false := by cases text <;> simp_all
+        by_cases hsyn : strip (strip l0) = []
+        · -- an empty synopsis: the rendering starts with the line break
+          rw [hsyn]
+          simp only [List.nil_append]
+          unfold asFormattedText
+          simp only [htie, Bool.false_eq_true, if_false, asFormattedLines]
+          cases hs : splitlines text with
+          | nil => exact absurd hs (splitlines_ne_nil text htne)
+          | cons q qs =>
+            have hqs := encPieces (q :: qs) (fun l hl => splitlines_noB text l (by rw [hs]; exact hl))
+            have := splitlines_joinNlSp (encLine q) (qs.map encLine) (hqs _ (by simp)).1 (hqs _ (by simp)).2.1
+              (fun r hr => ⟨(hqs r (by simp only [List.map_cons, List.mem_cons]; exact Or.inr hr)).1,
+                            (hqs r (by simp only [List.map_cons, List.mem_cons]; exact Or.inr hr)).2.1⟩)
+            have hspB : NoB (' ' :: joinNlSp (List.map encLine (q :: qs))) → True := fun _ => trivial
+            -- "\n " ++ E: the first line is empty, the others are E's lines with the leading space
+            have e : splitlines ('\n' :: ' ' :: joinNlSp (List.map encLine (q :: qs))) =
+                [] :: splitlines (joinNlSp ((' ' :: encLine q) :: qs.map encLine)) := by
+              have hnl : ('\n' : Char) ≠ '\r' := by decide
+              have ej : ' ' :: joinNlSp (List.map encLine (q :: qs)) = joinNlSp ((' ' :: encLine q) :: qs.map encLine) := by
+                cases qs <;> simp [joinNlSp]
+              unfold splitlines
+              rw [ej]
+              simp [splitlinesAux, nl_boundary, hnl]
+            unfold safe
+            rw [e]
+            have hq' : NoB (' ' :: encLine q) := by
+              intro d hd
+              rcases List.mem_cons.mp hd with rfl | hd
+              · exact sp_not_boundary
+              · exact (hqs _ (by simp)).1 d hd
+            rw [splitlines_joinNlSp (' ' :: encLine q) (qs.map encLine) hq' (by simp)
+              (fun r hr => ⟨(hqs r (by simp only [List.map_cons, List.mem_cons]; exact Or.inr hr)).1,
+                            (hqs r (by simp only [List.map_cons, List.mem_cons]; exact Or.inr hr)).2.1⟩)]
+            simp only [List.tail_cons, List.all_cons, List.all_eq_true, List.mem_map, Bool.and_eq_true]
+            refine ⟨by simp [startsWith, isBlank_cons, (hqs _ (by simp : encLine q ∈ (q :: qs).map encLine)).2.2], ?_⟩
+            intro y hy
+            obtain ⟨x, hx, rfl⟩ := hy
+            have := hqs x (by simp only [List.map_cons, List.mem_cons]; exact Or.inr (List.mem_map.mpr hx))
+            simp [startsWith, isBlank_cons, this.2.2]
+        · unfold asFormattedText
+          simp only [htie, Bool.false_eq_true, if_false, asFormattedLines]
+          cases hs : splitlines text with
+          | nil => exact absurd hs (splitlines_ne_nil text htne)
+          | cons q qs =>
+            have hqs := encPieces (q :: qs) (fun l hl => splitlines_noB text l (by rw [hs]; exact hl))
+            have e : strip (strip l0) ++ '\n' :: ' ' :: joinNlSp (List.map encLine (q :: qs)) =
+                joinNlSp (strip (strip l0) :: List.map encLine (q :: qs)) := by
+              simp [joinNlSp]
+            rw [e]
+            exact safe_joinNlSp _ _ hfB hsyn hqs
+
+
+theorem lstrip_append_nonblank (a b : Str) (ha : isBlank a = false) : lstrip (a ++ b) = lstrip a ++ b := by
+  induction a with
+  | nil => simp [isBlank] at ha
+  | cons c cs ih =>
+    by_cases hc : isSpace c = true
+    · have : isBlank cs = false := by rw [isBlank_cons, hc] at ha; simpa using ha
+      simp [lstrip, hc, ih this]
+    · simp [lstrip, hc]
+
+theorem joinNlSp_head (ps : List Str) : ∃ r, ∀ p, joinNlSp (p :: ps) = p ++ r := by
+  cases ps with
+  | nil => exact ⟨[], by intro p; simp [joinNlSp]⟩
+  | cons q qs => exact ⟨'\n' :: ' ' :: joinNlSp (q :: qs), by intro p; rfl⟩
+
+def GoodPiece (q : Str) : Prop := NoB q ∧ q ≠ [] ∧ isBlank q = false
+
+theorem good_rstrip {q : Str} (h : GoodPiece q) : GoodPiece (rstrip q) := by
+  refine ⟨NoB_rstrip h.1, ?_, isBlank_rstrip h.2.2⟩
+  intro e
+  have := (rstrip_eq_nil_iff q).mp e
+  rw [h.2.2] at this; cases this
+
+theorem good_lstrip {q : Str} (h : GoodPiece q) : GoodPiece (lstrip q) := by
+  have hb : isBlank (lstrip q) = false := by rw [isBlank_lstrip]; exact h.2.2
+  refine ⟨NoB_lstrip h.1, ?_, hb⟩
+  intro e; rw [e] at hb; simp [isBlank] at hb
+
+/-- right-stripping a `"\n "`-join of good pieces leaves a safe value -/
+theorem safe_rstrip_joinNlSp (p : Str) (ps : List Str) (hp : GoodPiece p) (hps : ∀ q ∈ ps, GoodPiece q) :
+    safe (rstrip (joinNlSp (p :: ps))) = true := by
+  rcases List.eq_nil_or_concat ps with rfl | ⟨init, last, rfl⟩
+  · simp only [joinNlSp]; exact safe_single _ (NoB_rstrip hp.1)
+  · have hl := hps last (by simp)
+    rw [List.concat_eq_append, rstrip_joinNlSp p init last hl.2.2]
+    apply safe_joinNlSp p _ hp.1 hp.2.1
+    intro q hq
+    simp only [List.mem_append, List.mem_singleton] at hq
+    rcases hq with hq | rfl
+    · exact hps q (by simp [hq])
+    · exact good_rstrip hl
+
+theorem safe_lic (v : Str) : safe (licenseRoundtrip v) = true := by
+  unfold licenseRoundtrip licenseFromValue licenseDumps descriptionFromValue
+  cases hl : lineSeparated v with
+  | nil => simp [descriptionDumps, strip, lstrip, rstrip, safe_nil]
+  | cons l0 ls =>
+    have hl0B : NoB l0 := by
+      unfold lineSeparated at hl
+      split at hl
+      · cases hl
+      · exact splitlines_noB v l0 (by rw [hl]; simp)
+    have hfB : NoB (strip (strip l0)) := NoB_strip (NoB_strip hl0B)
+    simp only
+    unfold descriptionDumps
+    simp only
+    split
+    · exact safe_single _ (NoB_strip hfB)
+    · rename_i text htext
+      split
+      · exact safe_single _ (NoB_strip hfB)
+      · rename_i hte
+        have htne : text ≠ [] := by intro e; subst e; simp at hte
+        have hth : headP isSpace text = false := by
+          cases hls : ls.isEmpty with
+          | true => simp [hls] at htext
+          | false =>
+            simp only [hls, Bool.false_eq_true, if_false, Option.map_some, Option.some.injEq] at htext
+            split at htext
+            · rename_i he; rw [← htext] at htne; simp_all
+            · rw [← htext]; exact lstrip_head _
+        have hnsw : startsWith text [' '] = false := by
+          cases text with
+          | nil => rfl
+          | cons c cs =>
+            have : isSpace c = false := by simpa [headP] using hth
+            have : c ≠ ' ' := by intro e; subst e; rw [sp_space] at this; cases this
+            simp [startsWith, this]
+        simp only [hnsw, Bool.false_eq_true, if_false]
+        have htie : text.isEmpty = false := by cases text <;> simp_all
+        unfold asFormattedText
+        simp only [htie, Bool.false_eq_true, if_false, asFormattedLines]
+        cases hs : splitlines text with
+        | nil => exact absurd hs (splitlines_ne_nil text htne)
+        | cons q qs =>
+          have hqs : ∀ x ∈ (q :: qs).map encLine, GoodPiece x :=
+            encPieces (q :: qs) (fun l hl => splitlines_noB text l (by rw [hs]; exact hl))
+          by_cases hsyn : strip (strip l0) = []
+          · rw [hsyn]
+            simp only [List.nil_append, List.map_cons]
+            have e1 : strip ('\n' :: ' ' :: joinNlSp (encLine q :: qs.map encLine)) =
+                rstrip (lstrip (joinNlSp (encLine q :: qs.map encLine))) := by
+              have hnl : isSpace '\n' = true := by decide
+              simp [strip, lstrip, hnl, sp_space]
+            obtain ⟨r, hr⟩ := joinNlSp_head (qs.map encLine)
+            have hq0 := hqs (encLine q) (by simp)
+            rw [e1, hr (encLine q), lstrip_append_nonblank _ _ hq0.2.2, ← hr (lstrip (encLine q))]
+            exact safe_rstrip_joinNlSp _ _ (good_lstrip hq0) (fun x hx => hqs x (by simp only [List.map_cons, List.mem_cons]; exact Or.inr hx))
+          · have hsh : headP isSpace (strip (strip l0)) = false := strip_head _
+            have hsb : isBlank (strip (strip l0)) = false := isBlank_of_head hsh hsyn
+            have e : strip (strip l0) ++ '\n' :: ' ' :: joinNlSp (List.map encLine (q :: qs)) =
+                joinNlSp (strip (strip l0) :: List.map encLine (q :: qs)) := by
+              simp [joinNlSp]
+            rw [e]
+            obtain ⟨r, hr⟩ := joinNlSp_head (List.map encLine (q :: qs))
+            have hh : headP isSpace (joinNlSp (strip (strip l0) :: List.map encLine (q :: qs))) = false := by
+              rw [hr]
+              cases hc : strip (strip l0) with
+              | nil => exact absurd hc hsyn
+              | cons c cs => rw [hc] at hsh; simpa [headP] using hsh
+            show safe (rstrip (lstrip _)) = true
+            rw [lstrip_of_head hh]
+            exact safe_rstrip_joinNlSp _ _ ⟨hfB, hsyn, hsb⟩ hqs
+
+
+/-- **C20, all clauses** — for every Unicode text the model satisfies the property with the
+hypotheses of the two known findings added (K4: first line not blank in the inverse clause;
+K5: at most one trailing marker in the fixpoint clause). -/
+theorem sound_partial (t : Str) : holdsOnPartial t (model t) = true := by
+  unfold holdsOnPartial
+  have h1 : safe (model t).enc = true := safe_enc t
+  have h2 : safe (model t).ft = true := safe_ft t
+  have h3 : safe (model t).desc = true := safe_desc t
+  have h4 : safe (model t).lic = true := safe_lic t
+  have h5 : (!(invertible t && firstNotBlank t) || (model t).decEnc == trimmed t) = true := by
+    cases hi : (invertible t && firstNotBlank t) with
+    | false => rfl
+    | true =>
+      simp only [Bool.and_eq_true] at hi
+      simp [inverse_partial t hi.1 hi.2]
+  have h6 : (!(conformant t && atMostOneTrailingMarker t) || (model t).e2 == (model t).e1) = true := by
+    cases hi : (conformant t && atMostOneTrailingMarker t) with
+    | false => rfl
+    | true =>
+      simp only [Bool.and_eq_true] at hi
+      simp [fixpoint_partial t hi.1 hi.2]
+  have h7 : (!(match splitlines t with | l0 :: _ => !isBlank l0 | [] => false) ||
+      (firstLine (model t).desc == strip (firstLine t) && firstLine (model t).lic == strip (firstLine t))) = true := by
+    cases hi : (match splitlines t with | l0 :: _ => !isBlank l0 | [] => false) with
+    | false => rfl
+    | true =>
+      have := first_line t hi
+      show (!true || (firstLine (descriptionRoundtrip t) == _ && firstLine (licenseRoundtrip t) == _)) = true
+      simp [this.1, this.2]
+  rw [h1, h2, h3, h4, h5, h6]
+  simp only [Bool.true_and]
+  exact h7
 
 end Props.C20
